@@ -241,7 +241,7 @@ def as_slice_model(e, c, a):
     return e.as_slice(a[0])
 
 
-@model(r"<Vec<.*> as Clone>::clone$|impl \[.*\]>::to_vec$|<String as Clone>::clone$|<impl str>::to_string$|<str as ToString>::to_string$|"
+@model(r"<Vec<.*> as Clone>::clone$|<PathBuf as Clone>::clone$|impl \[.*\]>::to_vec$|<String as Clone>::clone$|<impl str>::to_string$|<str as ToString>::to_string$|"
        r"<str as ToOwned>::to_owned$|<\[.*\] as ToOwned>::to_owned$|<String as From<&str>>::from$|<impl str>::to_owned$|<String as ToString>::to_string$|"
        r"<Vec<.*> as From<&\[.*\]>>::from$|<&str as Into<String>>::into$|<String as From<&String>>::from$|<VecDeque<.*> as Clone>::clone$")
 def seq_clone(e, c, a):
